@@ -517,6 +517,8 @@ pub fn run(tier: Tier) -> i32 {
     round4.push(("points-shape-placed-as-a-point/polygon-xy-loc", format!("{a}<polygon id=\"e\" xy=\"#a@br\" xy-loc=\"br\" points=\"0 0 10 0 5 8\"/>"), BBox::new(30., 52., 40., 60.)));
     round4.push(("points-shape-placed-as-a-point/polygon-offset-points", format!("{a}<polygon id=\"e\" xy=\"#a@br\" points=\"5 5 15 5 10 13\"/>"), BBox::new(40., 60., 50., 68.)));
     round4.push(("points-shape-placed-as-a-point/polyline-V", format!("{a}<polyline id=\"e\" xy=\"#a|V 2\" points=\"2 2 12 12\"/>"), BBox::new(20., 8., 30., 18.)));
+    // sixth review round
+    round4.push(("points-shape-placed-as-a-point/relative-points", format!("{a}<rect id=\"b\" xy=\"200 200\" wh=\"10 8\"/><polygon id=\"e\" xy=\"#a|h 2\" points=\"0 0 #b~w 0 5 #b~h\"/>"), BBox::new(42., 36., 52., 44.)));
     let st = run_space(round4.len(), |i| verify(&round4[i].1, &[("e", round4[i].2)], round4[i].0, 1));
     rep.absorb("fourth-round", st);
     // a <use> placed relative to another element: the box of its INSTANCE (the target's box, moved by the target's own
@@ -539,6 +541,7 @@ pub fn run(tier: Tier) -> i32 {
         ("offset-rect/loc", r##"<rect id="t" xy="3 4" wh="8 6"/>"##, r##"xy="#base@br""##, (17., 11.)),
         ("offset-rect/cxy", r##"<rect id="t" xy="3 4" wh="8 6"/>"##, r##"cxy="#base@c""##, (8., 3.)),
         ("origin-ellipse/v", r##"<ellipse id="t" rxy="4 2"/>"##, r##"xy="#base|v 1""##, (15., 18.)),
+        ("use-of-use/v", r##"<rect id="t0" xy="3 4" wh="10 6"/><use id="t" href="#t0" x="100" y="0"/>"##, r##"xy="#base|v 5""##, (-93., 16.)),
         ("plain-x-y/circle", r##"<circle id="t" r="4"/>"##, r##"x="10" y="20""##, (10., 20.)),
         ("offset-rect/v", r##"<rect id="t" xy="5 7" wh="5"/>"##, r##"xy="#base|v 2""##, (7.5, 10.)),
     ];
